@@ -3306,8 +3306,10 @@ webdav_copymove_dir (const plugin_config * const pconf,
         }
         else if (S_ISREG(d_type)) {
             status = webdav_copymove_file(pconf, src, dst, &flags);
-            if (0 != status)
+            if (0 != status) {
                 webdav_xml_response_status(r, &src->rel_path, status);
+                multi_status = 1;
+            }
         }
       #if 0
         else if (S_ISLNK(d_type)) {
